@@ -1,6 +1,6 @@
 (* C06/Props.v — property-level theorems only. Tags [FULL]/[PARTIAL]/[REFUTED] are read by bin/check. *)
 From Coq Require Import List NArith ZArith.
-From BLB Require Import Lib.CRC C06.Model C06.Spec C06.Proofs C06.ProofsRefuted.
+From BLB Require Import Lib.CRC C06.Model C06.Spec C06.Proofs C06.ProofsRefuted C06.ProofsRecover C06.ProofsCrash C06.ProofsCache.
 Import ListNotations.
 Open Scope N_scope.
 
@@ -49,3 +49,51 @@ Theorem wal_crash_refuted_torn_first_record :
     ~ crash_atomic_at unfixed maxsz ops i j cut.
 Proof. exact f2_refuted_packed. Qed.
 Print Assumptions wal_crash_refuted_torn_first_record.
+
+(* [FULL] recovery, repaired code: for every directory of the shape a crash can leave -- consecutively numbered
+   files of complete valid records forming a gap-free run, every file but the last non-empty, the last one possibly
+   empty (crash right after a roll) and possibly followed by a torn record (torn final write, including a torn
+   FIRST record) -- and every roll threshold, OpenFSLog succeeds and the reopened log iterates exactly the records
+   of the directory with their bytes, FirstID and LastID are the ends of that run, and Append accepts exactly the
+   next id (any id when there is no record). This is the statement that findings F1 and F2 falsify for the code as
+   it stands *)
+Theorem wal_recovery_exact :
+  forall maxsz s0 gs t, crash_shape gs t ->
+    exists l d' ms,
+      open_log repaired maxsz (dir_of s0 gs t) = (0%Z, Some l, d', ms) /\
+      log_iterate repaired l d' 0 = (0%Z, map with_csum (concat gs)) /\
+      first_id l = first_of (concat gs) /\ last_id l = last_of (concat gs) /\
+      (forall id, id < two64 ->
+         append_accepts repaired l d' id = true <->
+         (concat gs = [] \/ id = (fst (last_of (concat gs)) + 1) mod two64)).
+Proof.
+  intros maxsz s0 gs t H. destruct (recovery_exact maxsz s0 gs t H) as (l & d' & ms & Ho & [H1 H2 H3 H4]).
+  exists l, d', ms. repeat split; try assumption; apply H4; assumption.
+Qed.
+Print Assumptions wal_recovery_exact.
+
+(* [PARTIAL] crash atomicity of the repaired code for every scenario made of Append batches and Close/Open, every
+   roll threshold above 0, every crash point between two file-system mutations and every cut of the write in
+   flight: OpenFSLog succeeds and yields a gap-free run containing every acknowledged record with its bytes,
+   followed by at most a prefix of the batch in flight, FirstID and LastID agree with iteration and only the
+   next id can be appended. Partial because the scenario alphabet leaves out Truncate and Trim, see
+   wal_crash_atomic below or not_yet_proved *)
+Theorem wal_crash_atomic_append_reopen :
+  forall (maxsz : N) (ops : list wal_op) (i j : nat) (cut : option N),
+    0 < maxsz -> Forall valid_op ops -> Forall ar_op ops ->
+    crash_atomic_at repaired maxsz ops i j cut.
+Proof. exact crash_atomic_append_reopen. Qed.
+Print Assumptions wal_crash_atomic_append_reopen.
+
+(* [FULL] cache transparency over the reference log: for every capacity of at least 1 and every sequence of
+   Append batches that are accepted, Truncates and Trims starting from an empty log, iteration through walCache from
+   any position returns exactly what iteration of the underlying log returns, cache hit or not. FirstID and LastID
+   are passed through by the code. The underlying log here is the memLog model, the repository's reference
+   semantics. Ids stay below 2^64 - 1, and a run ends at the first Append error as raft stops there *)
+Theorem wal_cache_transparent :
+  forall (cap : N) (ops : list cop) (c : cache) (m : memlog),
+    0 < cap -> Forall cop_room ops ->
+    crun (cache_new cap, []) ops = Some (c, m) ->
+    forall fx d start, c_iterate fx (Some c) (UMem m) d start = u_iterate fx (UMem m) d start.
+Proof. exact cache_transparent. Qed.
+Print Assumptions wal_cache_transparent.
